@@ -312,12 +312,14 @@ def run(ctx: Ctx):
         ctx.violation("theorems of Properties/C03.v no longer check", {"broken": "Properties/C03.v"}, found_input=False)
     try:
         from translators import c03_sql
-        for name, okk, detail in c03_sql.obligations():
-            if not ctx.obligation("T " + name, okk, detail):
-                ctx.violation(f"EM SQL no longer has the shape the model encodes: {name}", {"broken": "T " + name, "detail": detail},
-                              {"sql_shape": name}, found_input=False)
-    except ImportError:
-        pass
+        sql_obs = c03_sql.obligations()
+        sql_obs += c03_sql.coq_obligations(ctx)
+    except Exception as e:      # e.g. a renamed SQL generator: the T-sql obligations must not vanish silently
+        sql_obs = [("sql stage could be run (import of the SQL generators / translator)", False, repr(e)[:400])]
+    for name, okk, detail in sql_obs:
+        if not ctx.obligation("T " + name, okk, detail):
+            ctx.violation(f"EM SQL no longer has the shape the model encodes: {name}", {"broken": "T " + name, "detail": detail},
+                          {"sql_shape": name}, found_input=False)
     from harness import c03_py
     c03_py.stage(ctx)
     terms, metas = [], []
